@@ -23,6 +23,10 @@ type ValState struct {
 	// Unbonding: the validator left the bonded set and its unbonding period is running (status
 	// Unbonding: neither IsBonded nor IsUnbonded). Only meaningful when Bonded is false.
 	Unbonding bool `json:"unbonding,omitempty"`
+	// Jailed: jailed in this block by a module whose BeginBlocker runs before mhub2's (x/slashing, x/evidence).
+	// x/staking removes a jailed validator from the power index at once, but its status, its last power and the
+	// last total power are only updated by the staking EndBlocker of that block (which runs before mhub2's).
+	Jailed bool `json:"jailed,omitempty"`
 }
 
 // Staking is a scripted types.StakingKeeper. The zero Order returns bonded
@@ -55,6 +59,7 @@ func (s *Staking) mk(v ValState) stakingtypes.Validator {
 	}
 	return stakingtypes.Validator{
 		OperatorAddress: v.Oper,
+		Jailed:          v.Jailed,
 		Status:          st,
 		Tokens:          sdk.NewInt(v.Power).Mul(sdk.DefaultPowerReduction),
 		DelegatorShares: sdk.NewDec(v.Power),
@@ -64,7 +69,7 @@ func (s *Staking) mk(v ValState) stakingtypes.Validator {
 func (s *Staking) bonded() []ValState {
 	var out []ValState
 	for _, v := range s.Vals {
-		if v.Bonded {
+		if v.Bonded && !v.Jailed {
 			out = append(out, v)
 		}
 	}
@@ -152,3 +157,13 @@ func (s *Staking) GetValidator(ctx sdk.Context, addr sdk.ValAddress) (stakingtyp
 func (s *Staking) ValidatorQueueIterator(sdk.Context, time.Time, int64) sdk.Iterator { return nil }
 func (s *Staking) Slash(sdk.Context, sdk.ConsAddress, int64, int64, sdk.Dec)          {}
 func (s *Staking) Jail(sdk.Context, sdk.ConsAddress)                                  {}
+
+// EndBlocker is what the staking EndBlocker does to jailed validators: they leave the bonded set for good
+// (status Unbonding, no last power).
+func (s *Staking) EndBlocker() {
+	for i := range s.Vals {
+		if s.Vals[i].Jailed {
+			s.Vals[i].Jailed, s.Vals[i].Bonded, s.Vals[i].Unbonding = false, false, true
+		}
+	}
+}
